@@ -46,6 +46,7 @@ TraceNext ==
           \/ e.e = "Probe" /\ Probe
        /\ Post(e.post)
        /\ Has(e, "factory") => e.factory = outcome'     \* what Connection.factory returned / raised
+       /\ Has(e, "wake") => e.wake = outcome'           \* what a factory thread decides at the instant connected_event is set
 
 TraceSpec == TraceInit /\ [][TraceNext]_tvars
 
